@@ -14,9 +14,11 @@ package main
 
 import (
 	"bytes"
+	"crypto/sha256"
 	"flag"
 	"fmt"
 	"os"
+	"runtime"
 	"strconv"
 	"strings"
 	"sync"
@@ -46,14 +48,24 @@ func run1(o *op, in, msg []byte) result {
 	return r
 }
 
+// hexOrDigest renders a byte string; long ones travel as (SHA-256, length) - a representation, equal for equal
+// byte strings, used alike for the alone and the concurrent execution (DESIGN.md appendix B).
+func hexOrDigest(b []byte) string {
+	if len(b) <= 8192 {
+		return vt.Hex(b)
+	}
+	d := sha256.Sum256(b)
+	return fmt.Sprintf("sha256:%s:len%d", vt.Hex(d[:]), len(b))
+}
+
 func (r result) ev(kind string) vt.Ev {
-	out := vt.Hex(r.out)
+	out := hexOrDigest(r.out)
 	if r.err || r.pan {
 		out = ""
 	}
-	e := vt.Ev{"ev": kind, "op": r.op.name, "in": vt.Hex(r.in), "out": out, "err": r.err, "panic": r.pan, "rand": r.op.rand}
+	e := vt.Ev{"ev": kind, "op": r.op.name, "in": hexOrDigest(r.in), "out": out, "err": r.err, "panic": r.pan, "rand": r.op.rand}
 	if r.op.from != "" {
-		e["msg"] = vt.Hex(r.msg)
+		e["msg"] = hexOrDigest(r.msg)
 	}
 	if r.op.meta != nil {
 		for k, v := range r.op.meta(r.in) {
@@ -206,7 +218,7 @@ func scenario(w *vt.Writer, t *conc.Target, ops []*op, G, K int, sc int) {
 	// block) and shared associated-data buffers to the producing operations, at the same time. Reading caller
 	// memory concurrently is legal, so a result that differs from Alone, a race report on these buffers or a
 	// buffer that is not intact afterwards is the library's doing.
-	sres, intact := sharedPhase(w, ops[:nClass], G, K, sc)
+	sres, intact := sharedPhase(w, t.Class, ops[:nClass], G, K, sc)
 	for g := range sres {
 		for i, r := range sres[g] {
 			e := r.ev("conc")
@@ -395,9 +407,26 @@ func hasKeyManagers(h *keyset.Handle) bool {
 
 // sharedPhase: see scenario. Returns the per-goroutine results (appended to the concurrent results, so that the
 // randomized ones get their alone inverse) and the "intact" events of the shared buffers.
-func sharedPhase(w *vt.Writer, class []*op, G, K, sc int) ([][]result, []vt.Ev) {
+//
+// One more harness goroutine does nothing but READ the shared buffers while the phase runs. Any library write to
+// a caller buffer, however brief and even if undone before the call returns, is then (a) a data race between
+// library code and this reader for the race detector (which works on happens-before, not on overlap) and (b),
+// where the write happens in code the detector does not instrument (assembly), visible to the reader as a
+// buffer whose content differs from what the callers passed.
+func sharedPhase(w *vt.Writer, class string, ops []*op, G, K, sc int) ([][]result, []vt.Ev) {
 	rg := vt.Rng(int64(sc)*271 + 9)
 	bufs := [][]byte{vt.Bytes(rg, 7), vt.Bytes(rg, 40), vt.Bytes(rg, 16)} // exact capacity: nothing may be appended in place either
+	// one LARGE shared message for the deterministic producers (the time a call spends on it is the window in which
+	// another goroutine can see a temporarily modified buffer): 64 KiB, a 1 KiB salt for keyset derivation
+	large := -1
+	switch class {
+	case "daead", "mac", "prf", "sig":
+		large = len(bufs)
+		bufs = append(bufs, vt.Bytes(rg, 64<<10))
+	case "kderiv":
+		large = len(bufs)
+		bufs = append(bufs, vt.Bytes(rg, 1<<10))
+	}
 	ads := [][]byte{[]byte("shared ad 0"), []byte("shared associated data 1 (longer than a block)"), {}}
 	pristine := func(bs [][]byte) [][]byte {
 		out := make([][]byte, len(bs))
@@ -411,7 +440,7 @@ func sharedPhase(w *vt.Writer, class []*op, G, K, sc int) ([][]result, []vt.Ev) 
 	var variants [][]*op // variants[k] = what a goroutine with AD index k calls
 	for k := range ads {
 		var vs []*op
-		for _, o := range class {
+		for _, o := range ops {
 			if o.from != "" {
 				continue
 			}
@@ -432,50 +461,97 @@ func sharedPhase(w *vt.Writer, class []*op, G, K, sc int) ([][]result, []vt.Ev) 
 	if len(variants[0]) == 0 {
 		return make([][]result, G), nil
 	}
-	for k := range variants { // alone
+	takes := func(v *op, bi int) bool { return bi != large || (!v.rand && v.meta == nil) } // the large buffer: deterministic producers only
+	for k := range variants {                                                              // alone
 		for _, v := range variants[k] {
 			if k > 0 && !strings.Contains(v.name, ", ad ") {
 				continue // the same call for every AD index
 			}
-			for _, b := range bufs {
-				w.Emit(run1(v, b, b).ev("alone"))
+			for bi, b := range bufs {
+				if takes(v, bi) {
+					w.Emit(run1(v, b, b).ev("alone"))
+				}
 			}
 		}
 	}
-	rounds := K / (2 * len(bufs) * len(variants[0]))
+	const reps = 4 // the phase is repeated: every repetition is a new chance for the scheduler
+	rounds := K / (reps * 2 * len(bufs) * len(variants[0]))
 	if rounds < 1 {
 		rounds = 1
 	}
 	res := make([][]result, G)
-	start := make(chan struct{})
-	var wg sync.WaitGroup
-	for g := 0; g < G; g++ {
-		wg.Add(1)
-		go func(g int) {
-			defer wg.Done()
-			vs := variants[g%len(variants)]
-			buf := make([]result, 0, rounds*len(bufs)*len(vs))
-			<-start
-			for r := 0; r < rounds; r++ {
-				for _, v := range vs {
-					for bi, b := range bufs {
-						r := run1(v, b, b)
-						r.in, r.msg = bufs0[bi], bufs0[bi] // what the caller passed (the shared buffer must still hold it: "intact")
-						buf = append(buf, r)
+	seenBad := map[string][]byte{} // what the reader saw in a buffer that differed from what the callers passed
+	for rep := 0; rep < reps; rep++ {
+		start := make(chan struct{})
+		done := make(chan struct{})
+		var wg sync.WaitGroup
+		for g := 0; g < G; g++ {
+			wg.Add(1)
+			go func(g int) {
+				defer wg.Done()
+				vs := variants[(g+rep)%len(variants)]
+				buf := make([]result, 0, rounds*len(bufs)*len(vs))
+				<-start
+				for r := 0; r < rounds; r++ {
+					for _, v := range vs {
+						for bi, b := range bufs {
+							if !takes(v, bi) {
+								continue
+							}
+							r := run1(v, b, b)
+							r.in, r.msg = bufs0[bi], bufs0[bi] // what the caller passed (the shared buffer must still hold it: "intact")
+							buf = append(buf, r)
+						}
 					}
 				}
+				res[g] = append(res[g], buf...)
+			}(g)
+		}
+		var rd sync.WaitGroup
+		rd.Add(1)
+		go func() { // the reader: only reads
+			defer rd.Done()
+			all := append(append([][]byte{}, bufs...), ads...)
+			was := append(append([][]byte{}, bufs0...), ads0...)
+			<-start
+			for {
+				for i, b := range all {
+					p := was[i]
+					for j := range b { // plain Go loads (instrumented by the race detector), compared with what was passed
+						if b[j] != p[j] {
+							name := fmt.Sprintf("shared buffer %d (as seen by a concurrent reader during the calls)", i)
+							if _, dup := seenBad[name]; !dup {
+								seenBad[name] = append([]byte{}, b...)
+							}
+							break
+						}
+					}
+				}
+				select {
+				case <-done:
+					return
+				default:
+					runtime.Gosched()
+				}
 			}
-			res[g] = buf
-		}(g)
+		}()
+		close(start)
+		wg.Wait()
+		close(done)
+		rd.Wait()
 	}
-	close(start)
-	wg.Wait()
 	var intact []vt.Ev
 	for i := range bufs {
-		intact = append(intact, vt.Ev{"ev": "intact", "buf": fmt.Sprintf("message buffer %d", i), "before": vt.Hex(bufs0[i]), "after": vt.Hex(bufs[i])})
+		intact = append(intact, vt.Ev{"ev": "intact", "buf": fmt.Sprintf("message buffer %d", i), "before": hexOrDigest(bufs0[i]), "after": hexOrDigest(bufs[i])})
 	}
 	for i := range ads {
 		intact = append(intact, vt.Ev{"ev": "intact", "buf": fmt.Sprintf("associated data buffer %d", i), "before": vt.Hex(ads0[i]), "after": vt.Hex(ads[i])})
+	}
+	all0 := append(append([][]byte{}, bufs0...), ads0...)
+	for name, saw := range seenBad {
+		var i int
+		fmt.Sscanf(name, "shared buffer %d", &i)
+		intact = append(intact, vt.Ev{"ev": "intact", "buf": name, "before": hexOrDigest(all0[i]), "after": hexOrDigest(saw)})
 	}
 	return res, intact
 }
